@@ -102,30 +102,33 @@ def run(ctx):
             ("reportKillUuidToXattr", None, ("kOomdKillUuidTrustedXattr", "kOomdKillUuidUserXattr"))):
         rf = ctx.fn1("Oomd::BaseKillPlugin::" + q)
         lams = P.lambdas_in(rf)
-        ctx.check(len(lams) == 1, q + ":one-helper", "anchor", rf.loc(), "one helper closure", "expected one helper closure")
         X = Expander(P, rf)
         called = [X(rf.nodes[i]["args"][0]) for i in rf.calls() if rf.nodes[i].get("op") == "()" and rf.nodes[i].get("args")]
-        ctx.check(all(any(nm in c for c in called) for nm in names) and len(called) == 2, q + ":both-copies", "value-shape",
-                  rf.loc(), "helper applied to the trusted. and the user. attribute", "helper applied to " + str(called))
-        for l in lams:
-            ctx.use(l)
-            Xl = Expander(P, l)
-            sets = l.calls("setxattr")
-            gets = l.calls("getxattr")
-            for i in sets:
-                a = [Xl(x) for x in l.nodes[i]["args"]]
+        written = []
+        n_sets = 0
+        for g in [rf] + list(lams):
+            ctx.use(g)
+            Xg = Expander(P, g)
+            for i in g.calls("setxattr"):
+                a = [Xg(x) for x in g.nodes[i]["args"]]
+                if len(a) < 3:
+                    continue
+                n_sets += 1
+                names_w = called if a[1] == "param:xattr" else [a[1]]
+                written += names_w
                 if expect:
-                    ctx.check(re.search(r"std::to_string\(\(.* \+ (1|param:numProcsKilled|numProcsKilled)\)\)", a[2]) is not None
-                              and (("+ 1)" in a[2]) == (q == "reportKillInitiationToXattr")),
-                              q + ":delta", "value-shape", l.loc(i),
-                              "new value = previous + " + ("1" if "Initiation" in q else "numProcsKilled"),
-                              "new value is " + a[2][:100])
-                    ctx.check(a[1] == "param:xattr" and any(Xl(l.nodes[g]["args"][1]) == "param:xattr" for g in gets),
-                              q + ":same-attribute", "provenance", l.loc(i), "reads and writes the same attribute",
-                              "read/write attribute mismatch")
+                    delta = "1" if "Initiation" in q else "numProcsKilled"
+                    reads = re.findall(r"getxattr\(([^,]+), ([^()]+?)\)", a[2])
+                    same = bool(reads) and all(r_[1].strip() == a[1] for r_ in reads)
+                    ctx.check(same, q + ":same-attribute", "provenance", g.loc(i), "each copy's new value is computed from that copy's own previous value",
+                              "the value written to %s is computed from %s: the two copies (trusted./user.) no longer rise independently by the delta - a "
+                              "diverged or unreadable copy is overwritten instead of incremented" % (a[1], [r_[1] for r_ in reads] or "no previous value"))
+                    ctx.check(re.search(r"std::to_string\(\(.* \+ (param:)?%s\)\)" % delta, a[2]) is not None, q + ":delta", "value-shape", g.loc(i),
+                              "new value = previous + " + delta, "new value is " + a[2][:100])
                 else:
-                    ctx.check(a[2] == "param:killUuid" and a[1] == "param:xattr", q + ":value", "provenance", l.loc(i),
-                              "writes the given uuid", "writes " + a[2])
+                    ctx.check(a[2] == "param:killUuid", q + ":value", "provenance", g.loc(i), "writes the given uuid", "writes " + a[2])
+        ctx.check(n_sets >= 1 and all(any(nm in w for w in written) for nm in names), q + ":both-copies", "value-shape",
+                  rf.loc(), "the trusted. and the user. attribute are both written", "attributes written: " + str(sorted(set(written))))
     # ---- tryToKillPids counts successful kills only
     tkp = ctx.fn1("Oomd::BaseKillPlugin::tryToKillPids")
     fp = Flow(P, tkp, cg=ctx.cg)
